@@ -43,7 +43,44 @@ class C05(InterpProp):
             kn.p_history = 0.0
         return kn
 
+    @staticmethod
+    def two_timers(rnd):
+        """a delayed event the statechart sends itself and a delayed external one, pending together for a while (the
+        internal one due first or last), with steps before, between and after their due times"""
+        from sismic.model import BasicState, CompoundState, Statechart, Transition
+        d1 = rnd.randint(1, 5)
+        d2 = max(0, d1 + rnd.choice([-2, -1, 1, 1, 2, 3, 4]))
+        sc = Statechart('timers', preamble='x = 0\ny = 0')
+        sc.add_state(CompoundState('root', initial='a'), None)
+        for n in 'abcd':
+            sc.add_state(BasicState(n), 'root')
+        sc.add_transition(Transition('a', 'b', event='go', action="send('tick', delay=%d, v=y, b=True)" % d1))
+        for n in 'bcd':
+            sc.add_transition(Transition(n, rnd.choice('bcd'), event='tick', action='x += 1'))
+            sc.add_transition(Transition(n, rnd.choice('bcd'), event='late', action='y += 1'))
+        t0 = rnd.choice([0, 0, 3])
+        ops = [['exec', 0, t0], ['queue', 0, {'ev': 'go', 'data': []}]]
+        late = ['queue', 0, {'ev': 'late', 'data': [['delay', d2]]}]
+        if rnd.random() < 0.5:
+            ops += [late, ['exec', 0, t0]]
+        else:
+            ops += [['exec', 0, t0], late]
+        t = t0
+        for _ in range(rnd.randint(0, 2)):
+            ops.append(['exec', 0, t])          # nothing is due yet
+        while t <= t0 + max(d1, d2) + 1:
+            t += rnd.choice([1, 1, 1, 2])
+            ops.append(['exec', 0, t])
+            if rnd.random() < 0.3:
+                ops.append(['exec', 0, t])
+        return sc, ops
+
     def gen_case(self, rnd, tier):
+        if rnd.random() < 0.06:
+            sc, ops1 = self.two_timers(rnd)
+            enc = ChartEnc(sc)
+            payload = {'kind': 'interp', 'charts': [enc.json], 'ops': [['create', 0, self.ignore_contract, [], 0]] + ops1}
+            return Case(payload, {'charts': [sc]}, model_ok=enc.supported)
         case = super().gen_case(rnd, tier)
         if 'history' not in case.payload and rnd.random() < 0.25:
             # a second interpreter bound to the first: what the first sends reaches it once
